@@ -399,6 +399,46 @@ def check_inplace(run, cx, cfg):
         run.check(bad is None, 'inplace.op', fn, cfg, bad or '', where=where(body))
 
 
+def check_free_fns(run, cx, cfg):
+    """the free functions and the identity impls for plain slices are thin wrappers"""
+    rows = [('dasp_slice::to_sample_slice', 'dasp_slice::ToSampleSlice', 'to_sample_slice'), ('dasp_slice::to_sample_slice_mut', 'dasp_slice::ToSampleSliceMut', 'to_sample_slice_mut'),
+            ('dasp_slice::from_sample_slice', 'dasp_slice::FromSampleSlice', 'from_sample_slice'), ('dasp_slice::from_sample_slice_mut', 'dasp_slice::FromSampleSliceMut', 'from_sample_slice_mut'),
+            ('dasp_slice::frame::to_frame_slice', 'dasp_slice::frame::ToFrameSlice', 'to_frame_slice'), ('dasp_slice::frame::to_frame_slice_mut', 'dasp_slice::frame::ToFrameSliceMut', 'to_frame_slice_mut'),
+            ('dasp_slice::frame::from_frame_slice', 'dasp_slice::frame::FromFrameSlice', 'from_frame_slice'), ('dasp_slice::frame::from_frame_slice_mut', 'dasp_slice::frame::FromFrameSliceMut', 'from_frame_slice_mut')]
+    if cfg != 'nostd':
+        rows += [('dasp_slice::boxed::to_boxed_sample_slice', 'dasp_slice::boxed::ToBoxedSampleSlice', 'to_boxed_sample_slice'), ('dasp_slice::boxed::to_boxed_frame_slice', 'dasp_slice::boxed::ToBoxedFrameSlice', 'to_boxed_frame_slice'),
+                 ('dasp_slice::boxed::from_boxed_sample_slice', 'dasp_slice::boxed::FromBoxedSampleSlice', 'from_boxed_sample_slice'), ('dasp_slice::boxed::from_boxed_frame_slice', 'dasp_slice::boxed::FromBoxedFrameSlice', 'from_boxed_frame_slice')]
+    for fn, trait, meth in rows:
+        body = cx.body(fn)
+        if body is None:
+            run.fail('view.free-fn', fn, cfg, 'function not found')
+            continue
+        fw = mirutil.forwarder(body)
+        ok = False
+        if fw:
+            term, args = fw
+            c = term['callee']
+            ok = (c.get('trait'), c['name']) == (trait, meth) and args == [('param', 1, ())]
+        run.check(ok, 'view.free-fn', fn, cfg, 'must forward its argument unchanged to %s::%s' % (trait, meth), where=where(body))
+    # identity impls: a slice of samples is a slice of samples / a slice of frames is a slice of frames
+    n = 0
+    for imp in cx.facts.impls:
+        if imp['crate'] != CRATE or imp.get('trait') not in TRAITS or array_n(cx.facts, imp['self_ty']) or any(array_n(cx.facts, a) for a in imp['trait_args']):
+            continue
+        it = next((i for i in imp['items'] if i['name'] == TRAITS[imp['trait']]), None)
+        body = cx.body(it['path']) if it else None
+        if body is None:
+            continue
+        n += 1
+        ps = returning(cx.paths(it['path']))
+        r = unre(ps[0]['ret']) if len(ps) == 1 else ('x',)
+        if r[0] == 'agg' and r[1][0] == 'adt' and r[1][1] == 'core::option::Option':
+            r = unre(r[2][0]) if r[1][2] == 1 else ('none',)
+        run.check(len(ps) == 1 and r == ('param', 1) and not call_events(ps[0]), 'view.identity-impl', it['path'], cfg,
+                  'the conversion between a plain slice and itself must be the identity (total)', where=where(body))
+    run.floor('view.identity-impl', 'identity conversion impls (%s)' % cfg, n, 8)
+
+
 def strip_apps(p, t):
     """dereference captured variables inside a closure result"""
     if t[0] == 'app':
@@ -437,3 +477,4 @@ def run(run, tier, loadcfg):
         cx = Ctx(fx_)
         check_table(run, cx, cfg)
         check_inplace(run, cx, cfg)
+        check_free_fns(run, cx, cfg)
